@@ -375,12 +375,14 @@ fn content_for(ty: &str, subset: u32, kind_shift: usize, tpi: Option<&Value>) ->
 }
 
 /// enumerate the cases of one (version, type) shard
-fn cases_for(v: u8, ty: &str, f: &mut dyn FnMut(Case)) {
+fn cases_for(v: u8, ty: &str, thorough: bool, f: &mut dyn FnMut(Case)) {
     let uni = universe(ty);
     let nbits = uni.len() + 1;
     let tpis = tpi_shapes();
     // (a) every subset of the content universe, all top-level keys + a few sensitive configs
-    let top_cfgs: [u32; 4] = [0b111111, 0, 0b010001, 0b101110];
+    // quick: four configurations of the version-sensitive top-level keys; thorough: all 64, the value kinds
+    // of the content keys rotating with them
+    let top_cfgs: Vec<u32> = if thorough { (0..64u32).rev().collect() } else { vec![0b111111, 0, 0b010001, 0b101110] };
     for subset in 0..(1u32 << nbits) {
         for (ci, cfg) in top_cfgs.iter().enumerate() {
             let tpi_list: Vec<Option<&Value>> = if ty == "m.room.member"
@@ -487,6 +489,8 @@ fn main() {
         replay_and_exit("C04", p, |v| eval(&case_from_json(v), &mut Tally::new()));
     }
     let report = Report::new("C04", "model_checking", &args);
+    let thorough = args.tier.is_thorough();
+    report.set("top_level_configurations", serde_json::json!(if thorough { 64 } else { 4 }));
     report.set_rule(
         "product: room versions 1..=11 (RoomVersionId::rules()) x 11 event types x every subset of the \
          per-type content key universe (+unknown key) x top-level configurations (all 64 subsets of the \
@@ -503,7 +507,7 @@ fn main() {
         (1..=11u8).flat_map(|v| TYPES.iter().map(move |t| (v, *t))).collect();
     par_shards(&report, shards.len(), |i, t| {
         let (v, ty) = shards[i];
-        cases_for(v, ty, &mut |case| {
+        cases_for(v, ty, thorough, &mut |case| {
             t.states += 1;
             let before_unspec = t.unspecified;
             let viol = eval(&case, t);
